@@ -175,6 +175,10 @@ type testLit struct {
 	codeVal ssa.Value
 	keyVals []ssa.Value
 	via     string // the helper the literal was expanded from
+	// for an expanded template: the helper holding the literal (and the predicate closure), and the
+	// binding of its parameters to the call site's arguments
+	tmplFn  *ssa.Function
+	tmplEnv map[ssa.Value]ssa.Value
 }
 
 // testLiterals finds every construction site of a Test value.
@@ -226,6 +230,19 @@ func (P *Prog) testLiterals() []testLit {
 							}
 							if sameField(f, paramsF) {
 								isLit = true
+								// a map literal: `Params: map[string]any{code: n}`
+								if mk, isMk := cv(y.Val).(*ssa.MakeMap); isMk && mk.Referrers() != nil {
+									for _, mr := range *mk.Referrers() {
+										if mu, ok := mr.(*ssa.MapUpdate); ok && mu.Map == ssa.Value(mk) {
+											if s, ok := constString(mu.Key); ok {
+												tl.keys = append(tl.keys, s)
+											} else {
+												tl.keysConst = false
+												tl.keyVals = append(tl.keyVals, mu.Key)
+											}
+										}
+									}
+								}
 							}
 						case *ssa.UnOp:
 							// load of Params followed by MapUpdate
@@ -334,6 +351,20 @@ func (P *Prog) expandLiteralTemplates(lits []testLit, depth int) []testLit {
 		for _, c := range sites {
 			nt := testLit{fn: c.Parent(), hasCode: tl.hasCode, code: tl.code, codeConst: true, keysConst: true, keys: append([]string{}, tl.keys...), pos: P.ipos(c), via: fname(tl.fn)}
 			args := c.Call.Args
+			nt.tmplFn = tl.fn
+			nt.tmplEnv = map[ssa.Value]ssa.Value{}
+			if tl.tmplFn != nil {
+				// a template expanded through a further helper: keep the innermost literal's function and compose
+				nt.tmplFn = tl.tmplFn
+				for k, v := range tl.tmplEnv {
+					nt.tmplEnv[k] = v
+				}
+			}
+			for k, prm := range tl.fn.Params {
+				if k < len(args) {
+					nt.tmplEnv[prm] = cv(args[k])
+				}
+			}
 			if !tl.codeConst {
 				a := args[paramIdx(tl.fn, tl.codeVal)]
 				if sv, ok := constString(cv(a)); ok {
@@ -717,7 +748,7 @@ func checkC11(P *Prog, r *Result) {
 			r.bad("C11/param-key-is-code", c, l.pos, fmt.Sprintf("test with code %q stores its parameter under key %q", l.code, l.keys[0]))
 		}
 	}
-	r.floor("C11/param-key-is-code", 15)
+	r.floor("C11/param-key-is-code", 8)
 	// (c) issue-complete
 	P.checkIssueComplete(r)
 	// issues are per execution: no package-level issue object can be handed to an execution (it would keep the
@@ -734,12 +765,95 @@ func checkC11(P *Prog, r *Result) {
 	_ = R
 }
 
-func (P *Prog) checkIssueComplete(r *Result) {
+// issueFieldPaths: for a function that builds and returns a *ZogIssue, the
+// provenance of every issue field on each decision path (builder helpers and
+// setters entered, values resolved to the function's own parameters/context):
+// the last store to each field of the object that is returned.
+type issueFields struct {
+	prov     map[string]string // field -> provenance of the last store
+	returned bool              // the object the fields were stored into is the one returned
+	path     string
+}
+
+func (P *Prog) issueFieldPaths(fn *ssa.Function) ([]issueFields, bool) {
 	R := P.roles
 	zi := R.ZogIssue.Underlying().(*types.Struct)
+	provOf := func(val ssa.Value) string {
+		v := cv(val)
+		switch {
+		case isConstLike(v):
+			return "const " + vstr(v)
+		default:
+			if _, lf := loadOfField(v); lf != nil {
+				return "field " + lf.Name()
+			} else if c, ok := v.(*ssa.Call); ok {
+				return "call " + callOf(c).calleeName()
+			} else if p, ok := cvi(v).(*ssa.Parameter); ok {
+				return "param " + p.Name()
+			}
+		}
+		return "other"
+	}
+	spec := &pathSpec{name: "issue-fields", inlineAll: true}
+	spec.keep = func(f *ssa.Function) bool {
+		// the path renderer and the formatters are not builders of the issue
+		return f.Signature.Recv() != nil && sameNamed(namedOf(f.Signature.Recv().Type()), R.PathB)
+	}
+	spec.cond = func(iff *ssa.If) (string, string, string) { return "", "", "" }
+	spec.events = func(in ssa.Instruction) []pathItem {
+		st, ok := in.(*ssa.Store)
+		if !ok {
+			return nil
+		}
+		if base, f := fieldVar(st.Addr); f != nil && P.isPtrTo(cv(base).Type(), R.ZogIssue) {
+			return []pathItem{{kind: "SET", val: f.Name() + "=" + provOf(st.Val), in: in, aux: cvi(base)}}
+		}
+		// whole-object reset: *e = ZogIssue{}
+		if P.isPtrTo(st.Addr.Type(), R.ZogIssue) {
+			if c, isC := cv(st.Val).(*ssa.Const); isC && c.Value == nil {
+				var out []pathItem
+				for i := 0; i < zi.NumFields(); i++ {
+					out = append(out, pathItem{kind: "SET", val: zi.Field(i).Name() + "=const zero", in: in, aux: cvi(st.Addr)})
+				}
+				return out
+			}
+		}
+		return nil
+	}
+	spec.onReturn = func(rt *ssa.Return) string {
+		res, ok := retVals(rt)
+		if !ok || len(res) == 0 {
+			return "?"
+		}
+		return fmt.Sprintf("%p", cvi(res[0]))
+	}
+	res := P.enumPathsSpec(fn, nil, spec)
+	var out []issueFields
+	for _, p := range res.paths {
+		if !strings.HasPrefix(p.end, "RETURN") {
+			continue
+		}
+		ret := strings.TrimPrefix(p.end, "RETURN ")
+		f := issueFields{prov: map[string]string{}, path: p.String()}
+		for _, it := range p.items {
+			if it.kind != "SET" || fmt.Sprintf("%p", it.aux) != ret {
+				continue
+			}
+			f.returned = true
+			kv := strings.SplitN(it.val, "=", 2)
+			f.prov[kv[0]] = kv[1]
+		}
+		out = append(out, f)
+	}
+	return out, res.capHit
+}
+
+func (P *Prog) checkIssueComplete(r *Result) {
 	want := map[string][]string{
 		"(*zog/internals.SchemaCtx).IssueFromTest":   {"Code", "Path", "Dtype", "Value", "Params", "Message", "Err"},
 		"(*zog/internals.SchemaCtx).IssueFromCoerce": {"Code", "Path", "Dtype", "Value", "Params", "Message", "Err"},
+		// SchemaCtx.Issue(): a fresh issue prefilled from the node's own context
+		"(*zog/internals.SchemaCtx).Issue": {"Path", "Dtype", "Value"},
 	}
 	for _, name := range sortedKeys(want) {
 		fn := P.fn(name)
@@ -748,107 +862,70 @@ func (P *Prog) checkIssueComplete(r *Result) {
 			continue
 		}
 		r.sawFunc(name)
-		var obj ssa.Value
-		var blk *ssa.BasicBlock
-		idx := 0
-		eachInstr(fn, func(b *ssa.BasicBlock, i int, in ssa.Instruction) {
-			if ta, ok := in.(*ssa.TypeAssert); ok && P.isPtrTo(ta.AssertedType, R.ZogIssue) && obj == nil {
-				obj, blk, idx = ta, b, i
-			}
-		})
-		if obj == nil {
-			r.undecided("C11/issue-complete", name, P.pos(fn.Pos()), "no pooled *ZogIssue acquisition found")
+		paths, capHit := P.issueFieldPaths(fn)
+		if capHit || len(paths) == 0 {
+			r.undecided("C11/issue-complete", name, P.pos(fn.Pos()), "cannot enumerate the paths that build the issue")
 			continue
 		}
-		// provenance of the stored values
-		prov := map[string]string{}
-		eachInstr(fn, func(_ *ssa.BasicBlock, _ int, in ssa.Instruction) {
-			st, ok := in.(*ssa.Store)
-			if !ok {
-				return
-			}
-			base, f := fieldVar(st.Addr)
-			if f == nil || cv(base) != obj {
-				return
-			}
-			v := cv(st.Val)
-			pv := "other"
-			switch {
-			case isConstLike(v):
-				pv = "const " + vstr(v)
-			default:
-				if _, lf := loadOfField(v); lf != nil {
-					pv = "field " + lf.Name()
-				} else if c, ok := v.(*ssa.Call); ok {
-					pv = "call " + callOf(c).calleeName()
-				} else if p, ok := cvi(v).(*ssa.Parameter); ok {
-					pv = "param " + p.Name()
-				}
-			}
-			if prov[f.Name()] != "" {
-				prov[f.Name()] += " | " + pv
-			} else {
-				prov[f.Name()] = pv
-			}
-		})
-		ms := &mustStore{P: P, fn: fn, st: zi, isObj: func(v ssa.Value) bool { return v == obj }}
-		stored := ms.run(blk, idx)
 		expectProv := map[string]string{"Path": "call (*zog/internals.PathBuilder).String", "Dtype": "field DType"}
-		if strings.HasSuffix(name, "IssueFromTest") {
+		switch {
+		case strings.HasSuffix(name, "IssueFromTest"):
 			expectProv["Code"] = "field IssueCode"
 			expectProv["Params"] = "field Params"
 			expectProv["Value"] = "param val"
-		} else {
-			expectProv["Code"] = `const "coerce":`
+			expectProv["Path"] += "|field IssuePath" // the test's own IssuePath option overrides the node's path
+		case strings.HasSuffix(name, "IssueFromCoerce"):
+			expectProv["Code"] = `const "coerce"`
 			expectProv["Value"] = "field Data"
 			expectProv["Err"] = "param err"
+		default:
+			expectProv["Value"] = "field Data"
 		}
 		for _, fld := range want[name] {
-			f := structField(R.ZogIssue, fld)
 			c := name + "#" + fld
-			if f == nil || !stored[f.Origin()] {
-				r.bad("C11/issue-complete", c, P.pos(fn.Pos()), "issue field "+fld+" is not filled on every path")
-				continue
-			}
-			if exp, has := expectProv[fld]; has && !strings.Contains(prov[fld], strings.TrimSuffix(exp, ":")) {
-				r.bad("C11/issue-complete", c, P.pos(fn.Pos()), fmt.Sprintf("issue field %s is filled from %q, expected %q (the node's own context / the failing test)", fld, prov[fld], exp))
-				continue
-			}
-			r.ok("C11/issue-complete", c, P.pos(fn.Pos()), "filled from "+prov[fld])
-		}
-	}
-	// SchemaCtx.Issue(): NewZogIssue().SetPath(path).SetDType(DType).SetValue(Data)
-	if fn := P.fn("(*zog/internals.SchemaCtx).Issue"); fn != nil {
-		r.sawFunc(fname(fn))
-		need := map[string]string{"SetPath": "", "SetDType": "DType", "SetValue": "Data"}
-		got := map[string]bool{}
-		eachInstr(fn, func(_ *ssa.BasicBlock, _ int, in ssa.Instruction) {
-			ci := callOf(in)
-			if ci == nil || ci.static == nil {
-				return
-			}
-			if fld, ok := need[ci.static.Name()]; ok && len(ci.args()) == 2 {
-				if fld == "" {
-					if c, isCall := cv(ci.args()[1]).(*ssa.Call); isCall && callOf(c).static != nil && callOf(c).static.Name() == "String" {
-						got[ci.static.Name()] = true
+			bad := ""
+			provs := map[string]bool{}
+			for _, ip := range paths {
+				pv, has := ip.prov[fld]
+				if !ip.returned || !has {
+					bad = "issue field " + fld + " is not filled on every path"
+					break
+				}
+				provs[pv] = true
+				if exp, hasE := expectProv[fld]; hasE {
+					okAlt := false
+					for _, alt := range strings.Split(exp, "|") {
+						if strings.Contains(pv, alt) {
+							okAlt = true
+						}
 					}
-				} else if _, lf := loadOfField(cv(ci.args()[1])); lf != nil && lf.Name() == fld {
-					got[ci.static.Name()] = true
+					if !okAlt {
+						bad = fmt.Sprintf("issue field %s is filled from %q, expected %q (the node's own context / the failing test)", fld, pv, exp)
+						break
+					}
 				}
 			}
-		})
-		for _, k := range sortedKeys(need) {
-			c := fname(fn) + "#" + k
-			if got[k] {
-				r.ok("C11/issue-complete", c, P.pos(fn.Pos()), "prefilled from the node's context")
+			if exp, hasE := expectProv[fld]; hasE && bad == "" {
+				// the first alternative is the default: some path must use it
+				first := strings.Split(exp, "|")[0]
+				seen := false
+				for pv := range provs {
+					if strings.Contains(pv, first) {
+						seen = true
+					}
+				}
+				if !seen {
+					bad = fmt.Sprintf("issue field %s is never filled from %q", fld, first)
+				}
+			}
+			if bad != "" {
+				r.bad("C11/issue-complete", c, P.pos(fn.Pos()), bad)
 			} else {
-				r.bad("C11/issue-complete", c, P.pos(fn.Pos()), "ctx.Issue() does not prefill the issue via "+k+" from the node's own context")
+				r.ok("C11/issue-complete", c, P.pos(fn.Pos()), "filled from "+strings.Join(sortedKeys(provs), " | "))
 			}
 		}
-	} else {
-		r.broken("anchor (*SchemaCtx).Issue not found")
 	}
-	r.floor("C11/issue-complete", 15)
+	r.floor("C11/issue-complete", 6)
 }
 
 func isConstLike(v ssa.Value) bool {
@@ -1012,64 +1089,60 @@ func (P *Prog) checkPrecedence(r *Result) {
 		r.broken("anchor ExecCtx.AddIssue not found")
 	}
 	// entry points: NewExecCtx(errs, <load of conf.IssueFormatter>), options applied to that ctx before dispatch
-	newExec := P.fn("zog/internals.NewExecCtx")
+	// (decided on the entry point's paths, shared prologue helpers and closures handed to them entered)
 	for _, ep := range R.EntryPoints {
 		r.sawFunc(fname(ep))
-		var execCall *ssa.Call
-		eachInstr(ep, func(_ *ssa.BasicBlock, _ int, in ssa.Instruction) {
-			if c, ok := in.(*ssa.Call); ok && callOf(c).static == newExec && newExec != nil {
-				execCall = c
-			}
-		})
 		c := fname(ep) + "#formatter-and-options"
-		if execCall == nil {
-			r.bad("C11/precedence", c, P.pos(ep.Pos()), "entry point does not create its execution context with NewExecCtx")
+		paths, capHit := P.entryPaths(ep)
+		if capHit {
+			r.undecided("C11/precedence", c, P.pos(ep.Pos()), "too many paths to enumerate")
 			continue
 		}
-		okGlobal := false
-		if u, ok := execCall.Call.Args[1].(*ssa.UnOp); ok && u.Op == token.MUL {
-			if g, ok := u.X.(*ssa.Global); ok && g.Name() == "IssueFormatter" && g.Pkg.Pkg.Path() == pkgConf {
-				okGlobal = true
+		bad := ""
+		optSeen, ranSeen := false, false
+		for _, p := range paths {
+			if p.end == "PANIC" {
+				continue
+			}
+			if p.dispatches > 0 || p.end == "RETURN" {
+				switch {
+				case len(p.execs) == 0:
+					bad = "entry point does not create its execution context with NewExecCtx"
+				case len(p.execs) > 1:
+					bad = "entry point creates more than one execution context"
+				case !p.execGlobal:
+					bad = "the execution's default formatter is not the global conf.IssueFormatter read at call time"
+				}
+			}
+			for _, a := range p.optArgs {
+				if len(p.execs) != 1 || a != p.execs[0] {
+					bad = "ExecOptions (WithIssueFormatter, WithCtxValue) are not applied to this execution's context"
+				}
+				optSeen = true
+			}
+			if len(p.optArgs) > 0 && !p.optInLoop {
+				bad = "ExecOptions are not applied in a loop over all the given options"
+			}
+			if p.optAfterRun {
+				bad = "the schema runs before the ExecOptions have been applied"
+			}
+			if p.dispatches > 0 {
+				ranSeen = true
+			}
+			if bad != "" {
+				bad += "  [path: " + p.str + "]"
+				break
 			}
 		}
-		// options loop: dynamic call with execCall as argument, callee loaded from the variadic options param
-		optsOK := false
-		var optBlk *ssa.BasicBlock
-		eachInstr(ep, func(b *ssa.BasicBlock, _ int, in ssa.Instruction) {
-			ci := callOf(in)
-			if ci == nil || !ci.dynamic || len(ci.args()) != 1 || cv(ci.args()[0]) != ssa.Value(execCall) {
-				return
-			}
-			// callee comes from indexing the last parameter
-			for _, rt := range P.rootsOf(ci.instr.Common().Value) {
-				if rt.kind == rkParam && rt.v == ssa.Value(ep.Params[len(ep.Params)-1]) {
-					optsOK = true
-					optBlk = b
-				}
-			}
-		})
-		// dispatch must come after the options loop: the loop header dominates the dispatch block
-		dispOK := false
-		ca := P.newCatchAnalysis()
-		eachInstr(ep, func(b *ssa.BasicBlock, _ int, in ssa.Instruction) {
-			if _, isD := ca.dispatchCallee(callOf(in)); isD && optBlk != nil {
-				// the loop containing optBlk must be exited before b: b not in loop and loop header dominates b
-				for _, nl := range naturalLoops(ep) {
-					if nl.body[optBlk] && !nl.body[b] && nl.header.Dominates(b) {
-						dispOK = true
-					}
-				}
-			}
-		})
 		switch {
-		case !okGlobal:
-			r.bad("C11/precedence", c, P.ipos(execCall), "the execution's default formatter is not the global conf.IssueFormatter read at call time")
-		case !optsOK:
-			r.bad("C11/precedence", c, P.ipos(execCall), "ExecOptions (WithIssueFormatter, WithCtxValue) are not applied to this execution's context")
-		case !dispOK:
-			r.bad("C11/precedence", c, P.ipos(execCall), "the schema runs before the ExecOptions have been applied")
+		case bad != "":
+			r.bad("C11/precedence", c, P.pos(ep.Pos()), bad)
+		case !optSeen:
+			r.bad("C11/precedence", c, P.pos(ep.Pos()), "ExecOptions (WithIssueFormatter, WithCtxValue) are not applied to this execution's context")
+		case !ranSeen:
+			r.bad("C11/precedence", c, P.pos(ep.Pos()), "the entry point never runs the schema")
 		default:
-			r.ok("C11/precedence", c, P.ipos(execCall), "global formatter read at call time; every option applied to this call's context before the schema runs")
+			r.ok("C11/precedence", c, P.pos(ep.Pos()), "global formatter read at call time; every option applied to this call's context before the schema runs")
 		}
 	}
 	// i18n: language looked up in this call's context
